@@ -268,3 +268,87 @@ fn verif_native_c15_ntv2_generated() {
     }
     assert!(fails.is_empty(), "C15.N.ntv2.generated: {} failures in {} queries, first: {:?}", fails.len(), n, &fails[..fails.len().min(4)]);
 }
+
+// ---------------------------------------------------------------------------------------------
+// BaseGrid interpolation: convexity and continuity (nonlinear float reasoning is beyond CBMC: the Kani convexity
+// harness did not finish in 1800 s)
+// ---------------------------------------------------------------------------------------------
+fn lcg(state: &mut u64) -> f64 {
+    *state = state.wrapping_mul(6364136223846793005).wrapping_add(1442695040888963407);
+    ((*state >> 11) as f64) / ((1u64 << 53) as f64)
+}
+
+//@n {"id":"C08.N.bilinear","props":["C08"],"tier":"quick","bound":"generated grids with 1, 2 and 3 bands, 4x5 and 3x3 nodes, square and non-square cells, pseudo-random node values; 20000 pseudo-random positions inside each grid and 2000 positions on cell borders","text":"inside a cell the correction lies within the range of the four surrounding node values (every band); it is continuous across cell boundaries (the jump across a border shrinks with the step); at nodes it reproduces the node values"}
+#[test]
+fn verif_native_c08_bilinear() {
+    let mut fails = Vec::new();
+    let mut n = 0;
+    let mut seed = 42u64;
+    for (rows, cols, dlat, dlon) in [(4usize, 5usize, 1.0f64, 1.0f64), (3, 3, 0.5, 2.0), (5, 4, 2.0, 0.25)] {
+        for bands in 1..=3usize {
+            // header for BaseGrid::plain: lat_n, lat_s, lon_w, lon_e, dlat, dlon, bands (any consistent unit)
+            let (lat_n, lon_w) = (10.0, -3.0);
+            let lat_s = lat_n - dlat * (rows - 1) as f64;
+            let lon_e = lon_w + dlon * (cols - 1) as f64;
+            let vals: Vec<f32> = (0..rows * cols * bands).map(|_| (lcg(&mut seed) * 200.0 - 100.0) as f32).collect();
+            let g = BaseGrid::plain(&[lat_n, lat_s, lon_w, lon_e, dlat, dlon, bands as f64], Some(&vals), None).expect("well-formed grid");
+            let node = |r: usize, c: usize, b: usize| vals[bands * (cols * r + c) + b] as f64;
+            // nodes
+            for r in 0..rows {
+                for c in 0..cols {
+                    let v = g.at(&Coor4D([lon_w + c as f64 * dlon, lat_n - r as f64 * dlat, 0.0, 0.0]), 0.0).expect("node inside");
+                    for b in 0..bands {
+                        n += 1;
+                        if (v[b] - node(r, c, b)).abs() > 1e-9 {
+                            fails.push(format!("{rows}x{cols}x{bands}: node ({r},{c}) band {b}: {} vs {}", v[b], node(r, c, b)));
+                        }
+                    }
+                }
+            }
+            // convexity at random interior positions
+            for _ in 0..20000 {
+                let (u, w) = (lcg(&mut seed) * (cols - 1) as f64, lcg(&mut seed) * (rows - 1) as f64);
+                let (c0, r0) = ((u.floor() as usize).min(cols - 2), (w.floor() as usize).min(rows - 2));
+                let p = Coor4D([lon_w + u * dlon, lat_n - w * dlat, 0.0, 0.0]);
+                let v = g.at(&p, 0.0).expect("inside");
+                for b in 0..bands {
+                    n += 1;
+                    let cs = [node(r0, c0, b), node(r0, c0 + 1, b), node(r0 + 1, c0, b), node(r0 + 1, c0 + 1, b)];
+                    let (lo, hi) = (cs.iter().cloned().fold(f64::INFINITY, f64::min), cs.iter().cloned().fold(f64::NEG_INFINITY, f64::max));
+                    if !(v[b] >= lo - 1e-9 && v[b] <= hi + 1e-9) {
+                        if fails.len() < 5 {
+                            fails.push(format!("{rows}x{cols}x{bands}: at cell ({r0},{c0}) rel ({:.3},{:.3}) band {b}: {} outside [{lo}, {hi}]", u - c0 as f64, w - r0 as f64, v[b]));
+                        } else {
+                            fails.push(String::new());
+                        }
+                    }
+                }
+            }
+            // continuity across interior cell borders (vertical and horizontal lines through interior nodes)
+            for _ in 0..1000 {
+                let eps = 1e-9;
+                let c = 1 + (lcg(&mut seed) * (cols - 2) as f64) as usize; // interior column line
+                let w = lcg(&mut seed) * (rows - 1) as f64;
+                let (pl, pr) = (Coor4D([lon_w + c as f64 * dlon - eps, lat_n - w * dlat, 0.0, 0.0]), Coor4D([lon_w + c as f64 * dlon + eps, lat_n - w * dlat, 0.0, 0.0]));
+                let r = 1 + (lcg(&mut seed) * (rows - 2) as f64) as usize; // interior row line
+                let u = lcg(&mut seed) * (cols - 1) as f64;
+                let (pu, pd) = (Coor4D([lon_w + u * dlon, lat_n - r as f64 * dlat + eps, 0.0, 0.0]), Coor4D([lon_w + u * dlon, lat_n - r as f64 * dlat - eps, 0.0, 0.0]));
+                for (a, bb) in [(pl, pr), (pu, pd)] {
+                    let (va, vb) = (g.at(&a, 0.0).expect("inside"), g.at(&bb, 0.0).expect("inside"));
+                    for b in 0..bands {
+                        n += 1;
+                        // values differ by at most slope x step; slopes are below 200 / min spacing
+                        if (va[b] - vb[b]).abs() > 200.0 / dlat.min(dlon) * 2.0 * eps * 4.0 + 1e-9 {
+                            if fails.len() < 5 {
+                                fails.push(format!("{rows}x{cols}x{bands}: jump of {} across a cell border at {:?}", (va[b] - vb[b]).abs(), a));
+                            } else {
+                                fails.push(String::new());
+                            }
+                        }
+                    }
+                }
+            }
+        }
+    }
+    assert!(fails.is_empty(), "C08.N.bilinear: {} of {} evaluations wrong, first: {:?}", fails.len(), n, &fails[..fails.len().min(5)]);
+}
